@@ -4,10 +4,10 @@ and (re)builds the detection matrix: for every seeded change, apply it to a scra
 its property (and related ones) against that worktree through VERIF_REPO, remove the worktree.  /repo itself is never touched."""
 import json, os, shutil, subprocess, sys
 
-SRCS = [("/tmp/seeded", 1), ("/tmp/seeded2", 2), ("/tmp/seeded3", 3), ("/tmp/seeded4", 4), ("/tmp/seeded5", 5), ("/tmp/seeded6", 6), ("/tmp/seeded7", 7), ("/tmp/seeded8", 8), ("/tmp/seeded9", 9)]
+SRCS = [("/tmp/seeded", 1), ("/tmp/seeded2", 2), ("/tmp/seeded3", 3), ("/tmp/seeded4", 4), ("/tmp/seeded5", 5), ("/tmp/seeded6", 6), ("/tmp/seeded7", 7), ("/tmp/seeded8", 8), ("/tmp/seeded9", 9), ("/tmp/seeded10", 10)]
 VERIF = os.path.dirname(os.path.dirname(os.path.abspath(__file__)))
 DST = os.path.join(VERIF, "seeded")
-RELATED = {"C02": ["C14"], "C03": ["C02", "C14"], "C14": ["C02"], "C10": ["C09", "C04", "C14"], "C18": [], "C08": [], "C07": ["C08", "C02"], "C09": ["C14", "C04", "C17"], "C11": ["C12"], "C12": ["C13"], "C13": ["C12"]}
+RELATED = {"C02": ["C14"], "C03": ["C02", "C14"], "C14": ["C02"], "C10": ["C09", "C04", "C14"], "C18": ["C08"], "C08": [], "C07": ["C08", "C02"], "C09": ["C14", "C04", "C17"], "C11": ["C12"], "C12": ["C13"], "C13": ["C12"]}
 STRENGTHENED = {
     "C03-dedup-swallows-ack": "missed at first; C03 gained forced message-ID collisions (stray ACK/RST and a peer request on the ID the CON is going to use)",
     "C03-timeout-fails-wrong-request": "missed by C03 at first (caught by C02 and C14); C03 gained a bystander request registered later",
@@ -198,6 +198,12 @@ STRENGTHENED = {
     "C15-release-error-deferred-to-close": "missed at first; the client-role runs gained a peer that stops reading (connection_lost never comes)",
     "C16-host-lowercase-table-misses-z": "missed at first; the host alphabet gained every upper-case letter behind a percent-escape",
     "C17-wkc-shared-site-visited": "missed at first; C17 gained one Site object mounted under several prefixes",
+    "C02-cancelled-request-error-aborts-fanout": "missed at first; C02 gained a request withdrawn in the loop pass in which a Reset or a transport error for it is read",
+    "C06-block2-szx7-cap-breaks-slicing": "missed at first; C06 gained requests that ask for the (reserved) size exponent 7",
+    "C08-direct-send-forgets-held-back": "missed at first; C08 gained registrations whose notifications are partly confirmable and partly non-confirmable",
+    "C10-fallback-ack-narrow-except": "missed by C10 at first (C09's unserialisable-response outcomes reported it); C10 gained handlers whose answer cannot be serialised (seven kinds x four delays x CON/NON) and the count of acknowledgements per request",
+    "C18-backlog-continuation-deferred": "missed at first; C18 gained datagrams (among them an acknowledgement) read in the pass in which the shutdown begins, before its first step",
+    "C18-peer-shutdown-stops-all-handlers": "not reported by C18 (nothing in it is about the context's own shutdown); C08's rule that a registration only goes away for a reason concerning its own endpoint reports it",
     "C19-expanduser-after-join": "missed at first; C19 gained the server whose root is '.' with the home directory elsewhere",
     "C20-linkformat-empty-value-dropped": "missed at first; C20 gained empty parameter and attribute values and compares link attributes in resource lookups",
 }
